@@ -24,8 +24,13 @@ func (p cliPanic) String() string { return p.msg }
 
 // cocaCli runs `coca <args>` (this binary, `__cli`) with the working directory `work`; stdout+stderr are returned
 func cocaCli(work string, args ...string) (string, error) {
+	return cocaCliMode("__cli", work, args...)
+}
+
+// cocaCliMode: "__cli" is the coca command, "__cli_dep" the dependency sub-command (analysis/dep)
+func cocaCliMode(mode string, work string, args ...string) (string, error) {
 	self, _ := os.Executable()
-	cmd := exec.Command(self, append([]string{"__cli"}, args...)...)
+	cmd := exec.Command(self, append([]string{mode}, args...)...)
 	cmd.Dir = work
 	var out bytes.Buffer
 	cmd.Stdout = &out
@@ -78,7 +83,7 @@ func getReport(work, name string) ([]byte, error) {
 	return os.ReadFile(filepath.Join(work, "coca_reporter", name))
 }
 
-// tableRows parses a tablewriter table with `|` borders: the data rows (header and separator lines dropped by `isData`)
+// tableRows parses a tablewriter table with `|` borders: the header row first, then the data rows
 func tableRows(text string, ncols int) [][]string {
 	rows := [][]string{}
 	for _, line := range strings.Split(text, "\n") {
@@ -90,8 +95,15 @@ func tableRows(text string, ncols int) [][]string {
 			continue
 		}
 		row := make([]string, ncols)
+		sep := true
 		for i := range row {
 			row[i] = strings.TrimSpace(cells[i+1])
+			if strings.Trim(row[i], "-") != "" {
+				sep = false
+			}
+		}
+		if sep && strings.HasPrefix(line, "|-") {
+			continue // the line under the header
 		}
 		rows = append(rows, row)
 	}
